@@ -75,6 +75,12 @@ def table():
         for b in (1e-16, 3, 7e-9, 1e-300):
             rows.append(("({0} * {1})", [a, b]))
             rows.append(("({0} / {1})", [a, b]))
+    # large values with a fractional part, values a hair away from an integer, half-way cases: a printer or an
+    # operand normaliser that snaps "almost integral" floats must not touch them
+    for a, b in ((4000000002, 4), (2000000000.25, 3), (1e14 + 0.5, 1), (123456789.000001, 1), (3000000001, 2), (0.1, 3), (1e9 + 1e-6, 1), (2**53 - 1, 2)):
+        rows.append(("({0} / {1})", [a, b]))
+        rows.append(("({0} * {1})", [a, b]))
+        rows.append(("({0} + {1})", [a, b / 4]))
     for op, A in UNOPS.items():
         for a in A:
             rows.append((f"({op}{{0}})", [a]))
@@ -382,12 +388,12 @@ def check_case(case):
     r = rng("c03mix", case.get("mixseed", 0))
     cnt = dict(variants_compiled=0, variants_run=0, errors=0, unmodelled=0, expressions=len(exprs), values_compared=0, folded_vs_runtime=0)
     vio = []
-    variants = [("literal", dict(append_version=False)), ("stack", dict(append_version=False)), ("mixed", dict(append_version=False)), ("vars", dict(append_version=False)), ("func", dict(append_version=False)), ("func_noinline", dict(append_version=False, inline_functions=False))]
+    variants = [("literal", dict(append_version=False)), ("literal_compact", dict(append_version=False, compact=True, remove_labels=True)), ("stack", dict(append_version=False)), ("mixed", dict(append_version=False)), ("vars", dict(append_version=False)), ("func", dict(append_version=False)), ("func_noinline", dict(append_version=False, inline_functions=False))]
     results = {}
     srcs = {}
     codes = {}
     for mode, o in variants:
-        src = render(exprs, mode, r)
+        src = render(exprs, "literal" if mode == "literal_compact" else mode, r)
         srcs[mode] = src
         res = H.compile_src(src, o)
         cnt["variants_compiled"] += 1
@@ -431,7 +437,7 @@ def check_case(case):
                 # single operations (table) are compared tightly; in random trees a 16-digit literal feeding a
                 # cancelling operation (mod, subtraction) legitimately amplifies the printing error
                 ok = (v == w) if exact else close(v, w, 1e-14 if case.get("stream") == "table" else 1e-9)
-                if mode == "literal":
+                if mode in ("literal", "literal_compact"):
                     cnt["folded_vs_runtime"] += 1
                     nontrivial = True
                 if not ok:
@@ -439,7 +445,7 @@ def check_case(case):
                     ex = exprs[k] if k is not None and k < len(exprs) else None
                     vio.append(dict(signature=dict(monitor="fold-differential", event="value-differs", variant=mode), triggers=triggers_of(srcs[mode]) + triggers_of(srcs["stack"]), detail=dict(expression=ex, value_in_variant=v, value_at_run_time=w, variant_code=codes[mode][:600], stack_code=codes["stack"][:800])))
             missing = set(ref) - set(vals)
-            if missing and mode in ("literal", "vars", "mixed", "interpreter"):
+            if missing and mode in ("literal", "literal_compact", "vars", "mixed", "interpreter"):
                 vio.append(dict(signature=dict(monitor="fold-differential", event="write-missing", variant=mode), triggers=triggers_of(srcs[mode]), detail=dict(cells=sorted(missing), variant_code=codes[mode][:600])))
     res = dict(verdict="violated" if vio else ("held" if len(results) >= 2 else "skip"), counters=cnt, violations=vio, features=[case.get("stream", "?")])
     if nontrivial:
